@@ -1368,6 +1368,77 @@ theorem recv_inv (W : World Node VH V) (hOK : W.OK) (ht : Ht) (m : Mux Node VH V
       simp only
       exact .inl (handleLeaf_inv W hOK ht _ aw h0 u l hg hni)
 
+/-! ### runs -/
+
+/-- a request that was handed out: completed, and consistent with the world -/
+def Done (W : World Node VH V) (r : Req Node VH V) : Prop := ∃ ps a, ReqOK W ps r a
+
+theorem exec_inv (W : World Node VH V) (hOK : W.OK) (ht : Ht) (hHt : HtOK W ht) (s : Seeker.Run Node VH V)
+    (aw : Nat → Option Query) (h : MInv W ht s.m aw) (hout : ∀ r ∈ s.out, Done W r) (o : Seeker.Op)
+    (hk : ∀ k, o = .push k → k.length = KEY_BITS) :
+    ∃ s' aw', Seeker.exec W.env ht s o = .ok s' ∧ MInv W ht s'.m aw' ∧ (∀ r ∈ s'.out, Done W r) := by
+  cases o with
+  | push key =>
+    obtain ⟨m', e, hm'⟩ := push_inv W hOK ht s.m aw h key (hk key rfl)
+    exact ⟨{ s with m := m' }, _, by simp only [Seeker.exec, e], hm', hout⟩
+  | submitAll =>
+    obtain ⟨m', aw', e, hm', _⟩ := submitAll_inv W hOK ht hHt s.m aw h
+    exact ⟨{ s with m := m' }, aw', by simp only [Seeker.exec, e], hm', hout⟩
+  | recv ud =>
+    rcases recv_inv W hOK ht s.m aw h ud with ⟨m', aw', e, hm', _⟩ | e
+    · exact ⟨{ s with m := m' }, aw', by simp only [Seeker.exec, e], hm', hout⟩
+    · exact ⟨s, aw, by simp only [Seeker.exec, e], h, hout⟩
+  | recvErr ud => exact ⟨{ s with m := recvErr s.m ud }, aw, rfl, recvErr_inv W ht s.m aw h ud, hout⟩
+  | take =>
+    have ht' := take_inv W ht s.m aw h
+    simp only [Seeker.exec]
+    cases hc : takeCompletion s.m with
+    | mk m' o =>
+      rw [hc] at ht'
+      cases o with
+      | none => exact ⟨{ s with m := m' }, aw, rfl, ht', hout⟩
+      | some r =>
+        refine ⟨{ m := m', out := s.out ++ [r] }, aw, rfl, ht', ?_⟩
+        intro r' hr'
+        rcases List.mem_append.1 hr' with h1 | h1
+        · exact hout r' h1
+        · have : r' = r := by simpa using h1
+          subst this
+          obtain ⟨_, _, _, hh⟩ := take_some _ _ _ hc
+          have hi : s.m.reqs[0]? = some r' := by rw [← List.head?_eq_getElem?]; exact hh
+          exact ⟨_, _, minv_req h hi⟩
+
+/-- **every run keeps the refinement invariant and reaches no panic site** -/
+theorem run_inv (W : World Node VH V) (hOK : W.OK) (ht : Ht) (hHt : HtOK W ht) : ∀ (ops : List Seeker.Op)
+    (s : Seeker.Run Node VH V) (aw : Nat → Option Query), MInv W ht s.m aw → (∀ r ∈ s.out, Done W r) →
+    (∀ k, Seeker.Op.push k ∈ ops → k.length = KEY_BITS) →
+    ∃ s' aw', Seeker.run W.env ht s ops = .ok s' ∧ MInv W ht s'.m aw' ∧ (∀ r ∈ s'.out, Done W r)
+  | [], s, aw, h, hout, _ => ⟨s, aw, rfl, h, hout⟩
+  | o :: os, s, aw, h, hout, hk => by
+    obtain ⟨s1, aw1, e1, h1, o1⟩ := exec_inv W hOK ht hHt s aw h hout o (fun k e => hk k (by rw [e]; exact List.mem_cons_self ..))
+    obtain ⟨s2, aw2, e2, h2, o2⟩ := run_inv W hOK ht hHt os s1 aw1 h1 o1 (fun k hm => hk k (List.mem_cons_of_mem _ hm))
+    refine ⟨s2, aw2, ?_, h2, o2⟩
+    unfold Seeker.run
+    rw [e1]
+    exact e2
+
+/-- a fresh seeker over a good page set and good in-memory sources -/
+theorem minv_init (W : World Node VH V) (ht : Ht) (maxInflight : Nat) (cache : List (PageId × MPage Node))
+    (ps : PageSet Node) (leafCache : List Nat) (hps : PSInv W ps) (hmem : MemOK W cache) :
+    MInv W ht { maxInflight := maxInflight, cache := cache, ps := ps, leafCache := leafCache } (fun _ => none) := by
+  refine ⟨⟨hps, hmem, ?_⟩, ?_, ?_, ?_, ?_, ⟨[], Chain.nil⟩, ?_, ?_, ?_, ?_, ?_⟩
+  · intro x hx; cases hx
+  · exact List.nodup_nil
+  · intro q w h; cases h
+  · exact List.nodup_nil
+  · intro i h; cases h
+  · intro si pid k sub hs
+    simp [Slab.get] at hs
+  · exact List.nodup_nil
+  · intro u c h; cases h
+  · exact List.nodup_nil
+  · intro i h; cases h
+
 end inv
 
 end Nomt.Seeker
